@@ -217,6 +217,10 @@ def dfs_workloads(profile, tier):
             # one preemption at any core.py / parallel_utils.py line
             for src in ('keyzip_sel', 'concat'):
                 base.append(({'kind': 'pf', 'n': n, 'workers': 2, 'buffer': 2, 'src': src, 'trace_core': True}, 1))
+            # a memory cache between the function and the prefetch, examples with Python-level pickling hooks, two
+            # passes: concurrent misses store concurrently, the second pass reads what was stored
+            base.append(({'kind': 'pf', 'n': n, 'workers': 2, 'buffer': 2, 'cache_below': True, 'trace_core': True,
+                          'vk': 'touchy', 'epochs': 2, 'src': 'list'}, 1))
         for wl, k in base:
             if profile == 'plain':
                 out.append((wl, k))
